@@ -1,6 +1,7 @@
 /-
   C14 — JSON output is faithful and reversible.
 -/
+import ZlProofs.Lemmas.JsonString
 import ZlModel.Codec
 import ZlModel.Generated.Tables
 import ZlModel.Generated.Registry
@@ -85,5 +86,41 @@ theorem listing_one_line_per_lint {α Cfg : Type} (r : Registry α Cfg) :
     a line is accepted by the source decoder -/
 theorem listing_real : runtimeJSONLines = runtimeLints.length
     ∧ runtimeLints.all (fun l => (decodeSource unmarshalCases l.source).isSome) = true := by decide +kernel
+
+
+/-! ## The JSON string codec itself (discharges the `sanitize` hypothesis of `result_roundtrip_partial` for the model)
+
+  `JsonString.quote` / `unquote` model encoding/json's `appendString` and scanner + `unquoteBytes` byte for byte
+  (tied to the standard library by the `jsonstr` correspondence, ≈ 250 k strings and literals in the thorough tier). -/
+section StringCodec
+open Zl.JsonString
+
+/-- **Details survive a JSON round trip exactly, up to U+FFFD for bytes that are not UTF-8**: for every byte string,
+    with HTML escaping (json.Marshal, the result output) or without (the lint listing's encoder). -/
+theorem details_roundtrip (html : Bool) (details : Bytes) : unquote (quote html details) = some (sanitize details) :=
+  unquote_quote html details
+
+/-- ASCII text (every byte below 0x80, control characters and quotes included) comes back unchanged -/
+theorem sanitize_ascii : ∀ (n : Nat) (bs : Bytes), (∀ b ∈ bs, b < 128) → sanitizeFuel n bs = bs.take n
+  | 0, bs, _ => by simp [sanitizeFuel]
+  | n + 1, [], _ => by simp [sanitizeFuel]
+  | n + 1, b :: rest, h => by
+    have hb : b < 0x80 := h b (by simp)
+    simp only [sanitizeFuel, hb, if_true, List.take_succ_cons]
+    rw [sanitize_ascii n rest (fun x hx => h x (by simp [hx]))]
+
+theorem ascii_details_roundtrip (html : Bool) (details : Bytes) (h : ∀ b ∈ details, b < 128) :
+    unquote (quote html details) = some details := by
+  rw [details_roundtrip]
+  unfold sanitize
+  rw [sanitize_ascii _ _ h]
+  simp
+
+/-- the replacement is visible and bounded: a lone continuation byte becomes EF BF BD, a valid sequence is kept -/
+example : sanitize [0x41, 0xFF, 0x42] = [0x41, 0xEF, 0xBF, 0xBD, 0x42] ∧ sanitize [0xC3, 0xA9] = [0xC3, 0xA9]
+    ∧ sanitize [0xE2, 0x80, 0xA8] = [0xE2, 0x80, 0xA8] ∧ sanitize [0xC3] = [0xEF, 0xBF, 0xBD] := by decide
+example : quote true [0x3c, 0x22, 0x0a] = [0x22, 0x5c, 0x75, 0x30, 0x30, 0x33, 0x63, 0x5c, 0x22, 0x5c, 0x6e, 0x22] := by decide
+
+end StringCodec
 
 end Zl.C14
